@@ -90,11 +90,33 @@ def dedup_twice(rng, n):
     return out
 
 
+def same_name_materializations(rng, n):
+    """Two materializations that carry the SAME explicit name over different targets, in one engine and one tree (and a
+    second time through a transfer): each denotes its own target."""
+    a = K(1)
+    out = []
+    for _ in range(n):
+        rows = [{a: v} for v in rng.sample(range(6), rng.choice([3, 4, 5]))]
+        leaf = ("leaf", 1, ("it", 0), [a], rows)
+        lo, hi = rng.choice([1, 2, 3]), rng.choice([2, 3, 4])
+        m1 = ("mat", 9, ("un", ("sel", ("cmp", "gt", ("ref", a), ("lit", hi))), leaf))
+        m2 = ("mat", 9, ("un", ("sel", ("cmp", "lt", ("ref", a), ("lit", lo))), leaf))
+        if rng.random() < 0.3:
+            m2 = ("xfer", ("it", 1), m2)
+            m1 = ("xfer", ("it", 1), m1)
+        p = ("chain", m1, m2) if rng.random() < 0.5 else ("chain", m2, m1)
+        if rng.random() < 0.4:
+            p = ("un", ("sort", [(("ref", a), rng.random() < 0.5)]), p)
+        out.append(p)
+    return out
+
+
 def make_cases(rng, tier):
     progs = []
     progs += exhaustive_programs(2 if tier == "quick" else 3)
     progs += adjacent_slices(rng, tier)
     progs += dedup_twice(rng, 40 if tier == "quick" else 600)
+    progs += same_name_materializations(rng, 30 if tier == "quick" else 400)
     n = 500 if tier == "quick" else 20000
     for _ in range(n):
         p, _ = ip.gen_prog(rng, rng.choice([1, 2, 3, 4, 6, 8, 12]))
